@@ -176,6 +176,21 @@ def _flanks_result(E, env):
     return E.new_arr(n, INT, base='flanks')
 
 
+def _half_height_clause(flank, eff):
+    W = "sig[extrema_start[idx] : extrema_end[idx + %d] + 1]" % eff
+    h = "((%s[0] + %s[-1]) / 2.)" % (W, W)
+    if flank == 'rise':
+        inverted = "%s[0] > %s[-1]" % (W, W)
+        below = "(%s <= %s)" % (W, h)
+    else:
+        inverted = "%s[0] < %s[-1]" % (W, W)
+        below = "(%s > %s)" % (W, h)
+    cross = "(%s[:-1] & ~%s[1:]).nonzero()[0]" % (below, below)
+    centre = "int(len(%s) / 2.)" % W
+    med = "(int(len(%s) / 2) if len(%s) == 0 else int(np.median(%s)))" % (W, cross, cross)
+    return ("flanks[idx] == extrema_start[idx] + (%s if (np.sum(np.abs(%s)) == 0 or %s) else %s)" % (centre, W, inverted, med))
+
+
 def _ffm_cases():
     out = []
     for flank in ('rise', 'decay'):
@@ -194,7 +209,13 @@ def _ffm_cases():
                          "forall(i, 0 <= i < n_flanks, extrema_start[i] <= result[i] and result[i] <= extrema_end[i + %d])" % eff],
                 loops={1: dict(index='k', invariant=[
                     "len(flanks) == n_flanks",
-                    "forall(i, 0 <= i < k, extrema_start[i] <= flanks[i] and flanks[i] <= extrema_end[i + %d])" % eff])}))
+                    "forall(i, 0 <= i < k, extrema_start[i] <= flanks[i] and flanks[i] <= extrema_end[i + %d])" % eff],
+                    # C03, exact position, for an ARBITRARY flank (per-iteration postcondition): with W the raw samples from
+                    # the start to the end extremum and h the voltage halfway between them, the midpoint is the start plus
+                    # the temporal median (rounded down) of the samples just before W crosses h in the flank's direction;
+                    # the temporal centre of W when W is identically zero, when the flank is inverted, or when h is never
+                    # crossed that way
+                    body_ensures=[_half_height_clause(flank, eff)])}))
     return out
 
 
